@@ -121,6 +121,15 @@ def run(ctx):
                 u2 = {k[len(cname) + 1:]: float(x) for k, x in ref.update_states(rs, dt, v, rp).items()}
                 if u1 != u2:
                     viol.append(dict(case, kind="renaming changed the dynamics", renamed=u1, original=u2))
+                # ... and init_state: same values, under the renamed keys
+                try:
+                    i1 = {k: float(x) for k, x in ch.init_state(dict(states), v, params, dt).items()}
+                    i2 = {k: float(x) for k, x in ref.init_state(rs, v, rp, dt).items()}
+                    want = {((prefix + k[len(cname):]) if k.startswith(cname + "_") else k): x for k, x in i2.items()}
+                    if set(i1) != set(want) or any(i1[k] != want[k] for k in want):
+                        viol.append(dict(case, kind="renaming changed init_state (keys or values)", renamed=i1, expected=want))
+                except Exception as ex:
+                    viol.append(dict(case, kind="init_state of a renamed channel raised", error=repr(ex)[:300]))
     # synapses
     for cls in (IonotropicSynapse, TestSynapse, TanhRateSynapse):
         cname = cls.__name__
